@@ -294,12 +294,20 @@ def hyper(name: str) -> sp.Symbol:
     return sp.Symbol(name, positive=True)
 
 
+FLOAT_KIND = [False]  # "number-kind" mode: python floats stay sympy Floats (inexact but kind-preserving)
+
+
 def num(v: Any) -> Any:
     """Normalise a numeric value: python int stays, float -> exact Rational,
-    sympy Integer -> int."""
+    sympy Integer -> int.  In number-kind mode (concrete runs that ask whether a python number is an int
+    or a float) floats are kept as sympy Floats, which are contagious exactly as in Python."""
     if isinstance(v, bool):
         return v
     if isinstance(v, int):
+        return v
+    if FLOAT_KIND[0] and isinstance(v, float) and v == v and v not in (float("inf"), float("-inf")):
+        return sp.Float(v, 30)
+    if FLOAT_KIND[0] and isinstance(v, sp.Float):
         return v
     if isinstance(v, float):
         if v != v or v in (float("inf"), float("-inf")):
